@@ -1416,10 +1416,14 @@ def parse_tree(
         mode_text = text[count:mode_end]
         if strict and mode_text.startswith(b"0"):
             raise ObjectFormatException(f"Invalid mode {mode_text!r}")
-        try:
-            mode = int(mode_text, 8)
-        except ValueError as exc:
-            raise ObjectFormatException(f"Invalid mode {mode_text!r}") from exc
+        # A mode is a run of octal digits that fits in 32 bits.  int() alone
+        # would also accept a sign, underscores, surrounding whitespace and a
+        # "0o" prefix, which neither git nor the Rust implementation do.
+        if not mode_text or mode_text.strip(b"01234567"):
+            raise ObjectFormatException(f"Invalid mode {mode_text!r}")
+        mode = int(mode_text, 8)
+        if mode > 0xFFFFFFFF:
+            raise ObjectFormatException(f"Invalid mode {mode_text!r}")
         name_end = text.index(b"\0", mode_end)
         name = text[mode_end + 1 : name_end]
 
